@@ -40,15 +40,17 @@ func (p *NamespaceEscalation) Check(
 
 	// All objects need to be namespace-scoped and either have a namespace equal
 	// to their owner or empty so it can be defaulted.
-	if len(obj.GetNamespace()) > 0 {
-		if obj.GetNamespace() != owner.GetNamespace() {
-			violations = append(violations, Violation{
-				Position: "Object " + obj.GetName(),
-				Error:    "Must stay within the same namespace.",
-			})
-		}
+	if len(obj.GetNamespace()) > 0 && obj.GetNamespace() != owner.GetNamespace() {
+		violations = append(violations, Violation{
+			Position: "Object " + obj.GetName(),
+			Error:    "Must stay within the same namespace.",
+		})
 		return
 	}
+
+	// The scope of the object's kind is checked even if a namespace is set:
+	// the namespace is defaulted to the owner's before preflight runs and
+	// the API server silently drops it for cluster-scoped kinds.
 
 	gvk := obj.GetObjectKind().GroupVersionKind()
 	mapping, err := p.restMapper.RESTMapping(gvk.GroupKind(), gvk.Version)
